@@ -16,15 +16,17 @@ LEVEL = "fault_enumeration"
 TECHNIQUE = ("runtime monitoring with fault injection: k-th-invocation faults at every hook boundary and line failpoints "
              "inside hooks/analysis code; oracle over the returned Stack's error tree")
 RULE = ("scenarios: async chain with nested generator-based managers and exit stacks (suspended, and suspended inside a "
-        "generator-based manager's exit), blocked thread, suspended greenlet (3.12), custom stack items with user "
+        "generator-based manager's exit - with and without a registered context-generator hook -, a hook that replaces "
+        "the generator-based manager), blocked thread, suspended greenlet (3.12), custom stack items with user "
         "unwrap/elaborate/context-generator hooks, running extraction from nested calls. For each: a fault at the k-th "
         "dynamic invocation of unwrap_stackitem / yields_frames iterator step / contexts_active_in_frame / "
         "elaborate_context / unwrap_context / unwrap_context_generator / elaborate_frame for every k, sampled pairs "
         "k1<k2, and line failpoints. Plus arbitrary non-stack inputs. non-trivial = run in which the fault escaped its "
         "hook boundary; distinct by (interpreter, scenario, hook kind(s), k)")
 ASSUMPTIONS = [
-    "a fault swallowed inside a hook (or inside a nested extract_outermost that still produced a frame) is not "
-    "required to surface",
+    "a line-level fault raised *inside* analysis or glue code may be handled there (fallback + warning); a fault raised "
+    "*by* a hook must be retrievable from a Stack that is part of the result, also when stackscope's own glue or a nested "
+    "extraction sits between the hook and the Stack under construction",
     "formatting is required only when repr of every involved object succeeds",
 ]
 MIN_NONTRIVIAL = {"quick": 400, "thorough": 5000}
@@ -33,10 +35,12 @@ REQUIRED_COUNTERS = {"boundary_faults_escaped": {"quick": 300, "thorough": 2000}
                      "pair_faults_UnhashableFault": {"quick": 20, "thorough": 400},
                      "pair_faults_EqualFault": {"quick": 20, "thorough": 400},
                      "line_faults_injected": {"quick": 300, "thorough": 10000},
+                     "builtin_family_faults": {"quick": 1000, "thorough": 1000},
                      "arbitrary_inputs": {"quick": 40, "thorough": 40}}
 SHARD_TIMEOUT = {"quick": 400, "thorough": 5400}
 INTERPS = ["3.12", "3.11", "3.10", "3.9"]
-SCENARIOS = ["async_chain", "async_chain_exiting", "thread", "custom", "running", "greenlet"]
+SCENARIOS = ["async_chain", "async_chain_exiting", "hooked_exiting", "hook_replaces", "thread", "custom", "running",
+             "greenlet"]
 
 
 def plan(tier, seed):
@@ -46,7 +50,8 @@ def plan(tier, seed):
             if sc == "greenlet" and interp != "3.12":
                 continue
             shards.append({"interp": interp, "leg": "boundary", "scenario": sc, "seed": seed,
-                           "pairs": 60 if tier == "quick" else 100000, "budget_s": 40 if tier == "quick" else 1500})
+                           "pairs": (60 if sc not in ("hooked_exiting", "hook_replaces") else 1500) if tier == "quick" else 100000,
+                           "budget_s": 40 if tier == "quick" else 1500})
             shards.append({"interp": interp, "leg": "lines", "scenario": sc, "seed": seed,
                            "max_k": 150 if tier == "quick" else 100000, "budget_s": 40 if tier == "quick" else 1500})
         shards.append({"interp": interp, "leg": "inputs", "seed": seed})
@@ -123,7 +128,25 @@ def worker(spec):
         def __hash__(self):
             raise RuntimeError("__hash__ called on a recorded error")
 
+    # faults that are also instances of the builtin families library code is most likely to catch for
+    # reasons of its own ("no frames" RuntimeError, getattr/hasattr AttributeError, TypeError probes, lookups)
+    class RuntimeFault(InjectedFault, RuntimeError):
+        pass
+
+    class TypeFault(InjectedFault, TypeError):
+        pass
+
+    class AttrFault(InjectedFault, AttributeError):
+        pass
+
+    class LookupFault(InjectedFault, KeyError):
+        pass
+
+    class ValueFault(InjectedFault, ValueError):
+        pass
+
     FAULT_CLASSES = [InjectedFault, EqualFault, UnhashableFault, HostileFault, InjectedFault]
+    BUILTIN_FAMILY_FAULTS = [RuntimeFault, TypeFault, AttrFault, LookupFault, ValueFault]
 
     # make sure every glue is installed and trickery is detected before anything is patched
     stackscope.extract_since(None)
@@ -260,6 +283,50 @@ def worker(spec):
             with inner_cm():
                 await sus("in-exit")
 
+    @contextlib.asynccontextmanager
+    async def hooked_exiting_acm():
+        # registered with unwrap_context_generator *and* observed while exiting: the glue has to find
+        # the generator's frame by a nested extraction of its own
+        try:
+            with contextlib.nullcontext():
+                yield
+        finally:
+            with inner_cm():
+                await sus("in-hooked-exit")
+
+    @unwrap_context_generator.register(hooked_exiting_acm)
+    def _hooked_exit(frame, context):
+        return None
+
+    class Repl(object):
+        def __enter__(self):
+            return self
+
+        def __exit__(self, *a):
+            return False
+
+    @contextlib.contextmanager
+    def replaced_cm():
+        # its hook replaces the generator-based manager by the manager it holds open (what the
+        # pytest-trio glue does): the inner stack extracted for it is then dropped
+        with Repl():
+            with inner_cm():
+                yield
+
+    @unwrap_context_generator.register(replaced_cm)
+    def _replace(frame, context):
+        return frame.contexts[0].obj if frame.contexts else None
+
+    async def lvl_hooked_exit():
+        with inner_cm():
+            async with hooked_exiting_acm():
+                pass
+
+    async def lvl_replaced():
+        with replaced_cm():
+            with inner_cm(), replaced_cm():
+                await sus(2)
+
     @contextlib.contextmanager
     def hooked_cm():
         with contextlib.nullcontext():
@@ -323,6 +390,14 @@ def worker(spec):
             return (lambda: stackscope.extract(co)), co.close
         if name == "async_chain_exiting":
             co = lvl_exit()
+            co.send(None)
+            return (lambda: stackscope.extract(co)), co.close
+        if name == "hooked_exiting":
+            co = lvl_hooked_exit()
+            co.send(None)
+            return (lambda: stackscope.extract(co)), co.close
+        if name == "hook_replaces":
+            co = lvl_replaced()
             co.send(None)
             return (lambda: stackscope.extract(co)), co.close
         if name == "thread":
@@ -426,6 +501,7 @@ def worker(spec):
     def judge(sc_name, label, s, raised, base_frames, nontrivial_key):
         res.evaluations += 1
         problems = []
+        mech = set()
         if raised is not None:
             problems.append("extract raised %r" % (raised,))
         elif not isinstance(s, stackscope.Stack):
@@ -442,7 +518,21 @@ def worker(spec):
                 later = fl["scopes"][idx + 1:]
                 escaped = all(any(p is ex for p in sc["passed"]) for sc in later)
                 if not escaped:
-                    res.count("faults_swallowed_inside_a_hook")
+                    if fl["key"][0] == "line":
+                        # a fault *inside* analysis/glue code may be handled there (fallback, warning)
+                        res.count("faults_swallowed_inside_a_hook")
+                        continue
+                    # a fault raised *by* a hook (none of the scenarios' own hooks catches anything) that
+                    # stackscope's own code swallowed on the way out: it must still be retrievable
+                    res.count("boundary_faults_swallowed_on_the_way")
+                    reach = []
+                    all_error_stacks(stackscope, s, reach)
+                    if not any(x is ex for _, el in reach for x in el):
+                        swallower = [sc["name"] for sc in later if not any(p is ex for p in sc["passed"])]
+                        problems.append("fault %r (%s) was swallowed by %s and is in no Stack's .error" % (
+                            fl["key"], type(ex).__name__, swallower[-1] if swallower else "?"))
+                        mech.add("swallowed:" + (swallower[-1] if swallower else "?"))
+                    found_any_escape = True
                     continue
                 found_any_escape = True
                 target_stack = ST["child_result"].get(childsc["id"])
@@ -453,7 +543,17 @@ def worker(spec):
                 e = target_stack.error
                 if e is not None:
                     errs = list(e.exceptions) if hasattr(e, "exceptions") else [e]
-                if not any(x is ex for x in errs):
+                reach = []
+                all_error_stacks(stackscope, s, reach)
+                if not any(st is target_stack for st, _ in reach):
+                    # the Stack that was being built has been dropped from the result: the fault must
+                    # then be retrievable from a Stack that *is* part of the result
+                    res.count("faults_on_dropped_stacks")
+                    if not any(x is ex for _, el in reach for x in el):
+                        problems.append("fault %r (%s) is recorded only on a Stack that is not part of the result" % (
+                            fl["key"], type(ex).__name__))
+                        mech.add("dropped-stack")
+                elif not any(x is ex for x in errs):
                     problems.append("fault %r escaped its hook but is not in .error of the Stack being built (%r)" % (
                         fl["key"], target_stack.error))
                 elif len(errs) == 1 and hasattr(e, "exceptions"):
@@ -505,7 +605,7 @@ def worker(spec):
                 problems.append("formatting the result raised %r" % (ex,))
         if problems:
             res.violation(kind="fault containment", scenario=sc_name, fault=repr(label), problems=problems[:3],
-                          interp=interp)
+                          interp=interp, mechanisms=sorted(mech))
 
     sc_name = spec["scenario"]
     thunk, cleanup = scenario(sc_name)
@@ -525,6 +625,11 @@ def worker(spec):
                 res.count("boundary_faults_injected")
                 res.count("kind_" + key[0])
                 judge(sc_name, key, s, raised, base_frames, key)
+                for cls in BUILTIN_FAMILY_FAULTS:
+                    s, raised = run_once(thunk, {key: cls(repr(key))})
+                    res.count("boundary_faults_injected")
+                    res.count("builtin_family_faults")
+                    judge(sc_name, key, s, raised, base_frames, key + (cls.__name__,))
             pairs = [(a, b) for i, a in enumerate(keys) for b in keys[i + 1:]]
             rng.shuffle(pairs)
             npair = 0
